@@ -266,10 +266,27 @@ PROPS = {
         "technique": "Lean 4 round-trip theorem over regenerated per-field facts + export/import/export differential run with keeper-read comparison",
         "explanation": "Round trip proved for the field model and discharged over regenerated facts; rich states (contracts with code and storage, a liquid denomination with its ERC20 pair, a vesting account mid-schedule, DAO holders of two denominations, minting in progress, delegations, changed EVM parameters) exported, re-imported and compared.",
     },
+    "C04": {
+        "id": "C04",
+        "lean_modules": ["HaqqModel.Props.C04"],
+        "level": "proof",
+        "trusted_base": COMMON_TRUST + [
+            "modelled, not verified: the authz keeper (a live grant per granter/grantee/message type; expiry makes it absent), StakeAuthorization.Accept (allow-list, limit, delete at zero) as implemented in the SDK, the staking message server (its success or failure for the named delegator enters the model as an input obtained by a dry run on a cached context)",
+            "the theorems cover the staking family (delegate / undelegate and their approve / increase / decrease / revoke); distribution and ICS-20 methods follow the same identity pattern in the source but are not modelled; the ERC20 precompile's allowances are outside this check",
+        ],
+        "assumptions": [
+            "the caller named in the model is contract.CallerAddress and the signer is tx.origin, as the EVM supplies them",
+            "grant expiry is handled by the authz keeper (an expired grant reads as absent)",
+        ],
+        "level_text": "Machine-checked proofs (Lean 4) over a model of the staking precompile's authority logic: whoever's coins or stake a successful call moves is the signer or the immediate caller; a third account named as delegator is refused; when the caller is not the signer success implies a live grant whose allow-list contains the validator and whose limit covers the amount; a limited grant is reduced by exactly the amount (deleted at zero), an unlimited one is unchanged; a validator outside the allow-list is refused for limited and unlimited grants; and for every sequence of approve / increase / decrease / revoke / spend the amounts spent since the last approval plus the remaining limit equal what was granted (never overspent). Tied to the code by an exact differential run of real signed transactions (direct and through a contract) against the compiled model.",
+        "level_note": "Trusted: Lean kernel; correspondence harness; authz/staking internals modelled; only the staking family is modelled.",
+        "technique": "Lean 4 proofs of the decision logic + running-allowance invariant by induction over op sequences + differential correspondence on real transactions",
+        "explanation": "Identity matrix (signer/contract as caller × signer/contract/third party as delegator) × grant states (absent, limited at limit−1/limit/limit+1, unlimited, revoked, validators created after the approval) exercised with real transactions; verdict and resulting grant compared with the model; independent monitors for third-party effects, coverage and exact reduction.",
+    },
 }
 
 # properties not (yet) claimed, each with a reason; entries disappear as checks are built
 NOT_APPLICABLE = {pid: "check not built yet in this session (planned: see DESIGN.md §5)" for pid in
-                  ["C03", "C04", "C10", "C16"]}
+                  ["C03", "C10", "C16"]}
 
 HOOK_COMMITS = []
